@@ -139,6 +139,14 @@ PLANS["C16"] = {
     "exhaustive": True,
 }
 
+# ---- the sweep families (systematic field-alignment permutations), small value sets ---------------------
+for pid in ("C01", "C02", "C05", "C06"):
+    for tier in ("quick", "thorough"):
+        PLANS[pid][tier].append({"type": "tlc-replay", "module": "MCCodec", "cfg": "MCCodec_sweep.cfg"})
+for pid in ("C03", "C15", "C14", "C20"):
+    for tier in ("quick", "thorough"):
+        PLANS[pid][tier].append({"type": "tlc-replay", "module": "MCEmplace", "cfg": "MCEmplace_sweep.cfg"})
+
 # ---- impl -> spec: seeded drivers + TLC trace validation (spec/TraceFlat.tla) -------------------------
 VEC_T = ["V_u8_u8", "V_u8_u16", "V_u8_u32", "V_u32_u8", "V_u64_u32", "V_u128_u8", "V_bool_u8", "V_ss3_u16", "V_i32_u16", "V_lei32_leu16", "V_u16_beu32", "V_ss5_u16", "V_se1_u8",
          "S_u8", "S_u16", "S_u32", "S_leu16", "US1", "US2", "US3", "US6", "US7", "US8", "US9", "US10"]
@@ -294,7 +302,9 @@ PLANS.update({
                    [io_async_cfg("UE6", 2, 3, 3, 2, False, live=True)]
                    + [io_async_cfg("UE6", 3, pc, ch, sp, True) for pc, ch, sp in [(1, 1, 2), (2, 2, 2), (3, 3, 2), (5, 5, 2), (17, 12, 2)]]
                    + [io_async_cfg(m, 2, pc, ch, 2, True) for m in ["US2", "UE1", "V_u8_u32"] for pc, ch in [(1, 1), (3, 3), (5, 4)]]
-                   + [io_async_cfg("X_vu8_u8", 3, pc, 2, 2, True) for pc in [1, 2, 5]]),
+                   + [io_async_cfg("X_vu8_u8", 3, pc, 2, 2, True) for pc in [1, 2, 5]]
+                   + [io_async_cfg("UE6", 5, 17, 12, 1, True)]
+                   + [io_recv_cfg(m, 3, 12, 0, "code", True, cap=c) for m in ("UE6", "US2", "V_u8_u32") for c in (0, 4, 8)]),
     "C10": io_plan(IO_TEXT, "receiver model fed arbitrary streams: all strings over {0,1,2,255} up to RawLen, a valid stream with one byte replaced (first 12 positions x 3 values), a valid stream truncated at every position; every chunking; non-trivial = all",
                    ["iorecv.arbitrary.*"],
                    [io_recv_cfg(m, 2, 4, 0, "code", True, arbitrary=True, rawlen=r) for m, r in [("UE6", 4), ("X_vu8_u8", 4), ("US2", 3), ("V_u8_u16", 3)]],
